@@ -27,6 +27,7 @@ CFG = {
     "assumptions": [
         "generated surface syntax stays inside what the pinned parser accepts: no explicit close tags for empty glif elements, no comments inside <glyph>, no DOCTYPE in glifs, no blanks at the ends of notes (DESIGN section 6, rows C12/C05)",
         "integers in plists within +-2^53 (the model reads an <integer> as the double of the same value)",
+        "CDATA sections are generated only in tagged inputs (x=cdata-*, cd=<part>); what the first load drops of them is recorded (plist crate / parse_note ignore CDATA), anything else they cause is a violation",
         "a legacy tree refused by the kerning-group upconversion (GroupsUpconversionFailure) is 'not accepted', not a violation",
     ],
 }
